@@ -491,6 +491,11 @@ impl World {
                 true
             }
             ["tick"] => true,
+            // real (std clock) time passes while whatever is suspended stays suspended: 2 ms
+            ["stall"] => {
+                std::thread::sleep(std::time::Duration::from_millis(2));
+                true
+            }
             _ => false,
         }
     }
